@@ -19,7 +19,7 @@ theorem constStep_sigFin (ev : Ev) (k : ConstKind) (ph : Phase) : SigFin (constS
   unfold constStep at h ⊢
   split <;> simp_all [Op.phase]
 
-theorem leafStep_sigFin (ev : Ev) (i : Nat) (ph : Phase) : SigFin (leafStep specs ev i ph) := by
+theorem leafStep_sigFin (ev : Ev) (i : Nat) (ph : Phase) (nt : Bool) : SigFin (leafStep specs ev i ph nt) := by
   intro o h
   unfold leafStep at h ⊢
   split
@@ -124,7 +124,7 @@ theorem signal_finishes (fuel : Nat) (ev : Ev) (op : Op) : SigFin (deliver specs
   | succ n =>
     cases op with
     | const k ph => simp only [deliver]; exact constStep_sigFin _ _ _
-    | leaf i ph => simp only [deliver]; exact leafStep_sigFin _ _ _ _
+    | leaf i ph nt => simp only [deliver]; exact leafStep_sigFin _ _ _ _ _
     | un k c ph env => simp only [deliver]; exact unStep_sigFin _ _ _ _ _ _
     | bin k a b st => simp only [deliver]; exact binStep_sigFin _ _ _ _ _ _
 
@@ -132,11 +132,11 @@ theorem signal_finishes (fuel : Nat) (ev : Ev) (op : Op) : SigFin (deliver specs
 theorem finished_inert (fuel : Nat) (ev : Ev) (op : Op) (h : op.phase = .finished) :
     (deliver specs fuel ev op).1 = op ∧ (deliver specs fuel ev op).2.2 = none := by
   cases fuel with
-  | zero => simp [deliver]
+  | zero => simp [deliver, h]
   | succ n =>
     cases op with
     | const k ph => simp only [Op.phase] at h; subst h; cases ev <;> simp [deliver, constStep]
-    | leaf i ph => simp only [Op.phase] at h; subst h; cases ev <;> simp [deliver, leafStep]
+    | leaf i ph nt => simp only [Op.phase] at h; subst h; cases ev <;> simp [deliver, leafStep]
     | un k c ph env => simp only [Op.phase] at h; subst h; cases ev <;> simp [deliver, unStep]
     | bin k a b st =>
       simp only [Op.phase] at h
@@ -151,7 +151,7 @@ theorem idle_silent (fuel : Nat) (ev : Ev) (op : Op) (h : op.phase = .idle)
   | const k ph =>
     simp only [Op.phase] at h; subst h
     cases ev <;> simp_all [deliver, constStep]
-  | leaf i ph =>
+  | leaf i ph nt =>
     simp only [Op.phase] at h; subst h
     cases ev <;> simp_all [deliver, leafStep]
   | un k c ph env =>
